@@ -14,6 +14,7 @@ import (
 
 	conformancev1 "connectrpc.com/conformance/internal/gen/proto/go/connectrpc/conformance/v1"
 	"connectrpc.com/conformance/internal/verifsim/simrt"
+	"connectrpc.com/conformance/internal/verifsim/simwork"
 	"google.golang.org/protobuf/encoding/protojson"
 	"google.golang.org/protobuf/proto"
 	"google.golang.org/protobuf/types/known/anypb"
@@ -46,7 +47,8 @@ type worldCase struct {
 
 type worldServer struct {
 	*simServer
-	slot string
+	slot   string
+	handed int // requests addressed to this server that reached a client
 }
 
 type world struct {
@@ -97,7 +99,7 @@ func expectedFor(idx int) *conformancev1.ClientResponseResult {
 func (w *world) files() (configFile, suiteFile string, err error) {
 	cfg := &conformancev1.Config{Features: &conformancev1.Features{
 		SupportsTls:            proto.Bool(w.cs.TLS),
-		SupportsH2C:            proto.Bool(true),
+		SupportsH2C:            proto.Bool(len(w.cs.Versions) > 1),
 		SupportsTlsClientCerts: proto.Bool(false),
 		SupportsConnectGet:     proto.Bool(false),
 		Compressions:           []conformancev1.Compression{conformancev1.Compression_COMPRESSION_IDENTITY},
@@ -193,6 +195,16 @@ func (w *world) hook(kind string, args []string) verifImpl {
 			c.answerFn = func(name string, serial int) *conformancev1.ClientCompatResponse {
 				return w.answer(slot, name, serial)
 			}
+			c.onReceive = func(_ int, req *conformancev1.ClientCompatRequest) {
+				s := w.byPort[req.Port]
+				c.aliveAtReceipt[req.TestName] = s != nil && !s.exited && s.ctx != nil && s.ctx.Err() == nil
+				if s != nil {
+					s.handed++
+					if s.sc.ExitAfterK >= 0 && s.handed >= s.sc.ExitAfterK {
+						s.trigger()
+					}
+				}
+			}
 			c.beforeAnswer = func(name string) {
 				// a reference server reports feedback about this request on its
 				// stderr before the client gets its response
@@ -214,11 +226,9 @@ func (w *world) hook(kind string, args []string) verifImpl {
 			s.errw = errw
 			w.servers = append(w.servers, s)
 			w.byPort[sc.Port] = s
-			w.live++
-			if w.live > w.maxLive {
-				w.maxLive = w.live
+			if sc.ExitAfterK == 0 {
+				s.trigger() // dies right after announcing itself
 			}
-			defer func() { w.live-- }()
 			return s.impl(ctx, a, in, out, errw)
 		}
 	}
@@ -232,6 +242,19 @@ func (w *world) answer(slot, name string, serial int) *conformancev1.ClientCompa
 	}
 	plan := w.fate(name)
 	resp := &conformancev1.ClientCompatResponse{TestName: name}
+	if c := w.clients[slot]; c != nil {
+		for _, r := range c.received {
+			if r.TestName == name {
+				if s := w.byPort[r.Port]; s != nil && s.exited {
+					// no client gets the expected response out of a dead server
+					c.goneAtAnswer[name] = true
+					if plan.Kind == akPass {
+						plan.Kind = akClientError
+					}
+				}
+			}
+		}
+	}
 	switch plan.Kind {
 	case akPass, akAssertFail:
 		r := expectedFor(idx)
@@ -278,4 +301,113 @@ func sortedKeys[V any](m map[string]V) []string {
 	}
 	sort.Strings(keys)
 	return keys
+}
+
+// worldC05 evaluates the C05 clauses on a finished run.
+func worldC05(w *world, cs *worldCase, selected map[string]*conformancev1.TestCase, viol func(string, string, ...any), res *simwork.Result) {
+	count := map[string]int{}
+	clean := cs.ClientFault == "none"
+	for _, s := range w.servers {
+		if len(s.fired) > 0 {
+			clean = false
+		}
+	}
+	for _, slot := range sortedKeys(w.clients) {
+		c := w.clients[slot]
+		if len(c.faultFired) > 0 {
+			clean = false
+		}
+		for i, req := range c.received {
+			name := req.TestName
+			count[name]++
+			tc, ok := selected[name]
+			if !ok {
+				viol("c05/not-selected", "client %s was handed %q, which is not a selected permutation", slot, name)
+				continue
+			}
+			s := w.byPort[req.Port]
+			switch {
+			case s == nil:
+				viol("c05/address", "request %q is addressed to port %d, which no started server announced", name, req.Port)
+			case s.request == nil:
+				viol("c05/address", "request %q is addressed to a server that never got its own request", name)
+			default:
+				sr := s.request
+				if sr.Protocol != tc.Request.Protocol || sr.HttpVersion != tc.Request.HttpVersion ||
+					sr.UseTls != (len(tc.Request.ServerTlsCert) > 0) || (len(sr.ClientTlsCert) > 0) != (tc.Request.ClientTlsCreds != nil) {
+					viol("c05/server-mismatch", "request %q (%s, %s, tls=%v) was addressed to a server started for (%s, %s, tls=%v)",
+						name, tc.Request.Protocol, tc.Request.HttpVersion, len(tc.Request.ServerTlsCert) > 0, sr.Protocol, sr.HttpVersion, sr.UseTls)
+				}
+				if req.Protocol != tc.Request.Protocol || req.HttpVersion != tc.Request.HttpVersion || req.Codec != tc.Request.Codec {
+					viol("c05/request-altered", "request %q carries (%s, %s, %s), its permutation is (%s, %s, %s)", name,
+						req.Protocol, req.HttpVersion, req.Codec, tc.Request.Protocol, tc.Request.HttpVersion, tc.Request.Codec)
+				}
+				if req.Host != "127.0.0.1" {
+					viol("c05/address", "request %q has host %q, server announced 127.0.0.1", name, req.Host)
+				}
+				if sr.UseTls && string(req.ServerTlsCert) != string(s.pemCert) {
+					viol("c05/certificate", "request %q does not carry the certificate its server announced", name)
+				}
+				if !sr.UseTls && len(req.ServerTlsCert) > 0 && !s.sc.WithCert {
+					viol("c05/certificate", "request %q carries a certificate although its server announced none", name)
+				}
+				if len(s.fired) == 0 && !c.aliveAtReceipt[name] {
+					viol("c05/server-not-alive", "request %q reached the client while its (fault-free) server was already stopped", name)
+				}
+				grpcServer := strings.Contains(name, grpcImplMarker) || strings.Contains(name, grpcServerImplMarker)
+				if grpcServer != (s.slot == "grpc-reference-server") {
+					viol("c05/grpc-marker", "request %q was addressed to server slot %s", name, s.slot)
+				}
+			}
+			grpcClient := strings.Contains(name, grpcImplMarker) || strings.Contains(name, grpcClientImplMarker)
+			if grpcClient != (slot == "grpc-reference-client") {
+				viol("c05/grpc-marker", "request %q was handed to client slot %s", name, slot)
+			}
+			found := 0
+			for _, h := range req.RequestHeaders {
+				if strings.EqualFold(h.Name, "x-test-case-name") {
+					found++
+					if len(h.Value) != 1 || h.Value[0] != name {
+						viol("c05/test-name-header", "request %q has x-test-case-name %v", name, h.Value)
+					}
+				}
+			}
+			if found != 1 {
+				viol("c05/test-name-header", "request %q has %d x-test-case-name headers", name, found)
+			}
+			_ = i
+		}
+	}
+	for _, name := range sortedKeys(count) {
+		if n := count[name]; n > 1 {
+			viol("c05/duplicate", "permutation %q was handed to a client %d times", name, n)
+		}
+	}
+	if clean {
+		for _, name := range sortedKeys(selected) {
+			if count[name] != 1 {
+				viol("c05/dropped", "no peer misbehaved, but selected permutation %q was handed to a client %d times", name, count[name])
+				break
+			}
+		}
+	} else {
+		res.Probes["c05-faulty-run"]++
+	}
+	if w.maxLive > int(cs.MaxServers) {
+		viol("c05/max-servers", "%d servers alive at once, --max-servers is %d", w.maxLive, cs.MaxServers)
+	}
+	for _, s := range w.servers {
+		if s.started && !s.exited {
+			viol("c05/server-not-stopped", "server #%d (%s) was still running when Run had returned and the system was quiescent", s.id, s.slot)
+		}
+	}
+	for _, slot := range sortedKeys(w.clients) {
+		if c := w.clients[slot]; c.started && !c.exited {
+			viol("c05/client-not-stopped", "client %s was still running when Run had returned and the system was quiescent", slot)
+		}
+	}
+	res.Probes[fmt.Sprintf("c05-servers-started-%d", len(w.servers))]++
+	if w.maxLive >= 2 {
+		res.Probes["c05-concurrent-servers"]++
+	}
 }
